@@ -652,6 +652,14 @@ func (c *TermCtx) Concat(a, b *Term) *Term {
 	if a.IsConst() && a.Val == 0 {
 		return c.Zext(b, w)
 	}
+	// concat(extract(x,h,m+1), extract(x,m,l)) = extract(x,h,l)
+	if a.Op == OpExtract && b.Op == OpExtract && a.Args[0] == b.Args[0] {
+		ah, al := int(a.Val>>8), int(a.Val&0xff)
+		bh, bl := int(b.Val>>8), int(b.Val&0xff)
+		if al == bh+1 {
+			return c.Extract(a.Args[0], ah, bl)
+		}
+	}
 	return c.mk(OpConcat, BV(w), []*Term{a, b}, 0, "")
 }
 
